@@ -359,17 +359,17 @@ Proof.
   assert (U : forall i, only nobatch (unlock i)) by (intros; apply q_unlock; intros; reflexivity).
   unfold deliver.
   apply once_bindr; [exact I|intros r0].
-  apply once_bindr; [apply q_inboxes_from_db; intros; reflexivity|intros found].
+  apply once_bindr; [apply q_inboxes_from_db with (dbok := fun _ => true); intros; reflexivity|intros found].
   apply once_bindr; [apply q_new_transport; intros; reflexivity|intros _].
   apply once_bind; [apply q_max_delivery_depth; intros; reflexivity|intros depth].
   apply once_bind; [apply q_resolve_actors; intros; reflexivity|intros actors].
   apply once_bindr; [exact I|intros remote].
   apply once_bindr; [apply L|intros _].
-  apply once_bind; [apply q_db_iri; intros; reflexivity|intros x].
+  apply once_bind; [apply q_db_iri with (dbok := fun _ => true); intros; reflexivity|intros x].
   apply once_bind; [apply U|intros _].
   apply once_bindr; [exact I|intros actor].
   apply once_bindr; [apply L|intros _].
-  apply once_bind; [apply q_db_json; intros; reflexivity|intros y].
+  apply once_bind; [apply q_db_json with (dbok := fun _ => true); intros; reflexivity|intros y].
   apply once_bind; [apply U|intros _].
   apply once_bindr; [exact I|intros this_actor].
   apply once_bindr; [exact I|intros ignore].
